@@ -1274,8 +1274,8 @@ func runContainers(c *core.Ctx, t *core.Trace) error {
 
 // runCounts: gen "counts", case = kind*100 + index into the kind's boundary
 // list (kinds 0..6: the record-list packs, 7: the composite pack).  Thorough:
-// every boundary of every kind; quick: per kind one short list (127..257) and,
-// for two kinds, one list around the sign bit of the 16-bit count cell.
+// every boundary of every kind; quick: per kind one short list (127..257) and
+// one list beyond the sign bit of the 16-bit count cell (32768..65535).
 func runCounts(c *core.Ctx) error {
 	if !c.WantGen("counts") {
 		return nil
@@ -1287,9 +1287,10 @@ func runCounts(c *core.Ctx) error {
 			bounds = countsSigned
 		}
 		pick := c.Rng("counts-pick", ki)
-		short, long := pick.Intn(6), 6+pick.Intn(3)
-		rot := int((c.Seed%4 + 4) % 4)
-		longKind := ki == rot || ki == 4+rot
+		// (every kind gets a list beyond the sign bit of its 16-bit count cell in every run: a reader
+		// that takes the cell as signed is wrong only there, and only for the kind it reads)
+		short, long := pick.Intn(6), 7+pick.Intn(2)
+		longKind := true
 		if ki == len(recKinds) {
 			long = 6 + pick.Intn(2)
 		}
